@@ -310,7 +310,7 @@ def mutating_method(n):
     return not ACCESSOR_RE.match(nm)
 
 
-PURE_KINDS = ("Int", "Bool", "Ref", "Member", "This", "Cast", "Bin", "Un", "MCall", "Str", "Char")
+PURE_KINDS = ("Int", "Float", "Bool", "Ref", "Member", "This", "Cast", "Bin", "Un", "MCall", "Str", "Char")
 
 
 def resolve_const_locals(f):
@@ -1337,6 +1337,20 @@ def declare_rules(ck):
             "a field of a parser class that create() fills with the text of an attribute is read by some member function of the class "
             "(used, validated or handed on): a value that is stored and never looked at is neither checked nor applied (input class: a root "
             "markup whose mesh=\"...\" declaration contradicts the <Mesh type=...> it contains)", 7)
+    ck.rule("E7.sibling-forwarding",
+            "sibling branches of one parser's markup() that build the same kind of object (`new Extrude<Mesh, Circle>` / `new Extrude<Mesh, "
+            "Bezier>`: one class template) hand over the same parsed attribute fields: a field that create() parsed and that one branch reads "
+            "(ext->set_origin(_ori_x, _ori_y)) is read by every sibling branch (input class: an <Extrude origin=...> chart around the sub-chart "
+            "kind whose branch forgets the field - the parsed chart is a different geometric object)", 8)
+    ck.rule("E11.attr-formula-roundtrip",
+            "numeric chart attributes survive write -> parse: the value expressions Chart::write emits for an attribute (sympy, over the "
+            "chart's fields), bound to the tokens the chart's parser parses and pushed through the constructor the parser calls, give back "
+            "every field they were computed from (e.g. Circle: d_L = -a, d_R = d_L + 2*pi/b against a = -d_L, b = 2*pi/(d_R - d_L)); a "
+            "violation comes with a numeric counterexample (input class: a Circle with a reversed parameter domain)", 9)
+    ck.rule("E7.callee-precondition",
+            "a value parsed from the file reaches a constructor only in the range the constructor asserts: every XASSERT of the callee that "
+            "compares one of its parameters with a literal is implied by the rejections that dominate the call in the parser callback "
+            "(input class: the boundary value the parser lets through and the callee aborts on, e.g. radius=\"0\")", 2)
     ck.rule("E11.angles-roundtrip",
             "the yaw/pitch/roll values Extrude::write reconstructs from the rotation matrix reproduce that matrix when read back: with "
             "R(yaw,pitch,roll) taken from Tiny::Matrix::set_rotation_3d, the token->parameter binding and the revolution scaling from "
@@ -1453,6 +1467,9 @@ def run(tier):
     rule_dim_binding(ck, W, facts)
     rule_dimension_recursion(ck, W, facts)
     rule_parsed_conversion(ck, W, facts)
+    rule_sibling_forwarding(ck, W, pcs, facts)
+    rule_attr_formula_roundtrip(ck, W, pcs, facts)
+    rule_callee_precondition(ck, W, facts)
     rule_parse_sign(ck, W, facts)
     rule_attr_value_used(ck, W, pcs, facts)
     rule_carrier_transfer(ck, W, facts)
@@ -4376,6 +4393,289 @@ def rule_attr_value_used(ck, W, pcs, facts):
 
 
 # -------------------------------------------------------------------------------------------------
+# E7.sibling-forwarding / E11.attr-formula-roundtrip / E7.callee-precondition (atlas chart parsers and writers)
+# -------------------------------------------------------------------------------------------------
+
+def parsed_fields(cfs):
+    """fields of a parser class that some member function fills with String::parse"""
+    out = set()
+    for g in cfs:
+        for n in g.nodes():
+            if n.get("k") == "MCall" and n.get("callee") == "FEAT::String::parse" and n.get("a") and is_this_field(n["a"][0]):
+                out.add(strip(n["a"][0])["n"])
+    return out
+
+
+def rule_sibling_forwarding(ck, W, pcs, facts):
+    rule = "E7.sibling-forwarding"
+    cfs_all = class_functions(facts)
+    groups = {}
+    for pc in pcs:
+        groups.setdefault(pc.short, []).append(pc)
+    for name, insts in sorted(groups.items()):
+        res = {}
+        for pc in insts:
+            mk = pc.m["markup"]
+            if mk.cfg is None or len(mk.params) < 3:
+                continue
+            pf = parsed_fields([g for g in cfs_all.get(pc.cls, []) if g.body is not None])
+            if not pf:
+                continue
+            tags = sorted(t for t in reader_children(W, {}, mk) if t != "?")
+            regions = {}
+            for t in tags:
+                sub = branch_for_name(mk, t)
+                if sub is None:
+                    continue
+                built = {strip_targs(x["init"].get("ccls") or "") for y in sub["s"] for x in walk(y) if x.get("k") == "New" and (x.get("init") or {}).get("ccls")}
+                reads = {x["n"] for y in sub["s"] for x in walk_init(y) if x.get("k") == "Member" and is_this_field(x) and x["n"] in pf}
+                # ... also through named temporaries of the branch (`const CoordType ox = _ori_x; ext->set_origin(ox, ..)`)
+                for nm in {x["n"] for y in sub["s"] for x in walk(y) if x.get("k") == "Ref" and x.get("dk") == "local"}:
+                    li = local_init(mk, nm)
+                    if li is not None:
+                        reads |= {x["n"] for x in walk_init(li) if x.get("k") == "Member" and is_this_field(x) and x["n"] in pf}
+                for bt in built:
+                    regions.setdefault(bt, {})[t] = reads
+            for bt, by_tag in regions.items():
+                if len(by_tag) < 2:
+                    continue
+                union = set().union(*by_tag.values())
+                for fld in sorted(union):
+                    missing = sorted(t for t, r in by_tag.items() if fld not in r)
+                    having = sorted(t for t, r in by_tag.items() if fld in r)
+                    res.setdefault((short(bt), fld), []).append((missing, having, mk))
+        for (bt, fld), lst in sorted(res.items()):
+            bad = [x for x in lst if x[0]]
+            mk = lst[0][2]
+            ck.ob(rule, "%s::markup/%s/%s" % (name, bt, fld), not bad,
+                  ("the branch for <%s> builds a %s without reading the parsed field %s, which the sibling branch for <%s> hands over: the attribute is "
+                   "parsed, validated and then dropped for this sub-chart kind" % (bad[0][0][0], bt, fld, bad[0][1][0])) if bad else
+                  "read by all %d branches that build a %s" % (len(lst[0][1]), bt), mk.file, mk.line)
+
+
+def parse_bindings(W, f, cfs):
+    """{local name: (attribute, token index)} for the String::parse calls of a create() body"""
+    out = {}
+    for m in f.nodes():
+        if not (m.get("k") == "MCall" and m.get("callee") == "FEAT::String::parse" and m.get("a")):
+            continue
+        tgt = strip(m["a"][0])
+        if tgt is None or tgt.get("k") != "Ref":
+            continue
+        o = strip(m.get("obj"))
+        K = trace_attr(f, m.get("obj"))
+        idx = None
+        if o is not None and o.get("k") == "MCall" and o.get("n") in ("front", "back", "at", "operator[]") and strip(o.get("obj")) is not None \
+           and strip(o["obj"]).get("k") == "Ref":
+            D = strip(o["obj"])["n"]
+            li = local_init(f, D)
+            if li is not None and li.get("k") == "MCall" and li.get("callee") in SPLITS:
+                K = trace_attr(f, li.get("obj"))
+                tt = token_table(W, f, K, cfs) if K else None
+                cnt = tt.get("count") if tt else None
+                if o["n"] == "front":
+                    idx = 0
+                elif o["n"] == "back":
+                    idx = cnt - 1 if cnt else None
+                else:
+                    idx = _int_lit(o["a"][0]) if o.get("a") else None
+        elif K is not None:
+            idx = 0
+        if K is not None and idx is not None:
+            out[tgt["n"]] = (K, idx)
+    return out
+
+
+def rule_attr_formula_roundtrip(ck, W, pcs, facts):
+    rule = "E11.attr-formula-roundtrip"
+    import random
+    try:
+        import sympy as sp
+    except ImportError:
+        ck.incomplete(rule, "sympy not available")
+        return
+    cfs_all = class_functions(facts)
+    seen = {}
+    for pc in pcs:
+        create = pc.m["create"]
+        if not re.search(r"/atlas/", create.file or ""):
+            continue
+        cfs = cfs_all.get(pc.cls, [])
+        binds = None
+        for nw in create.nodes():
+            if nw.get("k") != "New" or not (nw.get("init") or {}).get("ccls"):
+                continue
+            con = nw["init"]
+            ccls = con["ccls"]
+            ctor = [g for g in cfs_all.get(ccls, []) if g.d.get("ctor") and g.d.get("decl") == con.get("cdecl")]
+            wr = [g for g in cfs_all.get(ccls, []) if g.name == "write" and g.body is not None and len(g.params) == 2]
+            if not ctor or not wr:
+                continue
+            if binds is None:
+                binds = parse_bindings(W, create, cfs)
+            args = [strip(a) for a in con.get("a", [])]
+            bound = [(p_, binds.get(a["n"])) for p_, a in zip(ctor[0].params, args) if a is not None and a.get("k") == "Ref" and a.get("n") in binds]
+            if not bound:
+                continue
+            cname = short(ccls)
+            # writer: value operands per attribute, on a path that emits the attribute
+            wvals = {}
+            unk = []
+            for K in sorted({b[0] for _, b in bound}):
+                se = SymExec(wr[0])
+                se.skip_loops = True
+                se.capture = angle_operands(K)
+                try:
+                    paths = se.run()
+                except Unknown as ex:
+                    unk.append("%s::write: %s" % (cname, ex))
+                    continue
+                caps = [c for _, _, c in paths if c]
+                if not caps:
+                    continue      # emitted as literal alternatives only (E12.vocabulary compares those) or not at all
+                if any(len(c) != len(caps[0]) or any(sp.simplify(x - y) != 0 for x, y in zip(c, caps[0])) for c in caps[1:]):
+                    unk.append("%s::write emits attribute '%s' with different values on different paths" % (cname, K))
+                    continue
+                wvals[K] = caps[0]
+            # reader: the constructor with its parameters bound to the written tokens
+            env = {}
+            ok_bind = True
+            for p_, (K, idx) in bound:
+                if K not in wvals:
+                    continue
+                if idx >= len(wvals[K]):
+                    ok_bind = False
+                    continue
+                env[p_["n"]] = wvals[K][idx]
+            key0 = "%s(%s)" % (cname, ",".join(sorted({b[0] for _, b in bound})))
+            if unk or not ok_bind:
+                for u in unk or ["token binding of %s not resolved" % key0]:
+                    seen.setdefault(("?", key0), []).append(u)
+                continue
+            sc = SymExec(ctor[0])
+            fields = {}
+            try:
+                for it in ctor[0].d.get("inits") or []:
+                    if it.get("member") and it.get("init") is not None:
+                        try:
+                            fields["o_" + re.sub(r"\W+", "_", it["member"])[:60]] = sc.sx(it["init"], env)
+                        except Unknown:
+                            pass
+                for env2, conds, _ in sc.run(env):
+                    for lhs, val in env2.get("\0stores", []):
+                        fields["o_" + re.sub(r"\W+", "_", norm(lhs))[:60]] = val
+                    for k_, v_ in env2.items():
+                        if isinstance(k_, str) and k_.startswith("@"):
+                            fields["o_" + re.sub(r"\W+", "_", k_[1:])[:60]] = v_
+            except Unknown as ex:
+                seen.setdefault(("?", key0), []).append("constructor of %s: %s" % (cname, ex))
+                continue
+            used = set()
+            for K in {b[0] for _, b in bound}:
+                for e_ in wvals.get(K, []):
+                    used |= {str(x) for x in e_.free_symbols}
+            for fs in sorted(used):
+                if fs not in fields:
+                    continue
+                F = sp.Symbol(fs, real=True)
+                got = fields[fs]
+                if not isinstance(got, sp.Expr) or any(not str(x).startswith("o_") for x in got.free_symbols):
+                    continue          # (depends on a constructor argument that is not a written token)
+                diff = sp.simplify(got - F)
+                prob = None
+                if diff != 0:
+                    rnd = random.Random(11)
+                    syms = sorted(diff.free_symbols, key=str)
+                    for _ in range(12):
+                        pt = {x: sp.Rational(rnd.randint(1, 29), rnd.randint(2, 9)) * rnd.choice((1, -1)) for x in syms}
+                        try:
+                            v = complex(diff.subs(pt).evalf())
+                        except Exception:
+                            continue
+                        if abs(v) > 1e-9:
+                            prob = ("written and read back, %s becomes %s instead of %s (e.g. %s: off by %.6g): write() does not invert the formula of the constructor "
+                                    "the parser calls" % (fs[2:], sp.simplify(got), fs[2:], ", ".join("%s=%s" % (str(k_)[2:], float(v_)) for k_, v_ in sorted(pt.items(), key=lambda kv: str(kv[0]))[:3]), abs(v)))
+                            break
+                seen.setdefault(("ob", "%s/%s" % (cname, fs[2:])), []).append((prob, wr[0]))
+    for (kind, key), lst in sorted(seen.items()):
+        if kind == "?":
+            undecided(ck, rule, key, "; ".join(sorted(set(lst)))[:300])
+            continue
+        probs = [p_ for p_, _ in lst if p_]
+        ck.ob(rule, key, not probs, probs[0] if probs else "reproduced through constructor and parser binding (%d instantiation(s))" % len(lst), lst[0][1].file, lst[0][1].line)
+
+
+def rule_callee_precondition(ck, W, facts):
+    rule = "E7.callee-precondition"
+    cfs_all = class_functions(facts)
+    seen = {}
+
+    def lit(sname):
+        try:
+            return float(sname)
+        except (TypeError, ValueError):
+            return None
+    for f in reader_functions(facts):
+        pv = None
+        e = None
+        for nw in f.nodes():
+            if nw.get("k") != "New" or not (nw.get("init") or {}).get("ccls"):
+                continue
+            con = nw["init"]
+            g = [g_ for g_ in cfs_all.get(con["ccls"], []) if g_.d.get("ctor") and g_.d.get("decl") == con.get("cdecl") and g_.body is not None]
+            if not g:
+                continue
+            g = g[0]
+            if pv is None:
+                pv = parsed_vars(f)
+            for asr in g.nodes():
+                if not (asr.get("k") == "Call" and asr.get("callee") == "FEAT::assertion" and asr.get("a")):
+                    continue
+                c = cmp_parts(asr["a"][0]) if strip(asr["a"][0]).get("k") in ("Bin", "OpCall") else None
+                if c is None or c[0] not in ("<", ">", "<=", ">="):
+                    continue
+                op, l, r = c
+                # parameter OP literal
+                pl, pr = strip(l), strip(r)
+                if pr.get("k") == "Ref" and pr.get("dk") == "param" and lit(norm(l)) is not None:
+                    pl, pr, op = pr, pl, {"<": ">", ">": "<", "<=": ">=", ">=": "<="}[op]
+                if not (pl.get("k") == "Ref" and pl.get("dk") == "param") or lit(norm(pr)) is None:
+                    continue
+                bnd = lit(norm(pr))
+                pi = [i for i, p_ in enumerate(g.params) if p_.get("n") == pl["n"]]
+                if not pi or pi[0] >= len(con.get("a", [])):
+                    continue
+                arg = strip(con["a"][pi[0]])
+                if arg is None or arg.get("k") != "Ref" or arg.get("n") not in pv:
+                    continue          # not a value that comes from the file
+                X = norm(arg)
+                e = e or W.ecfg(f)
+                fs = e.facts_at(nw) or set()
+                lower, upper = [], []      # (value, strict)
+                for fa in fs:
+                    if fa[0] != "<":
+                        continue
+                    if fa[1] == X and lit(fa[2]) is not None:
+                        (upper if fa[3] else lower).append((lit(fa[2]), bool(fa[3])))          # X < c   /   not (X < c): X >= c
+                    elif fa[2] == X and lit(fa[1]) is not None:
+                        (lower if fa[3] else upper).append((lit(fa[1]), bool(fa[3])))          # c < X   /   not (c < X): X <= c
+                if op in (">", ">="):
+                    ok = any(v > bnd or (v == bnd and (st or op == ">=")) for v, st in lower)
+                else:
+                    ok = any(v < bnd or (v == bnd and (st or op == "<=")) for v, st in upper)
+                key = "%s::%s/%s %s %s" % (short(f.cls), f.name, pl["n"], op, norm(pr))
+                rec = seen.setdefault(key, {"probs": [], "fn": f, "line": nw.get("l"), "n": 0})
+                rec["n"] += 1
+                if not ok:
+                    have = ["%s %s %g" % (X, ">" if st else ">=", v) for v, st in lower] + ["%s %s %g" % (X, "<" if st else "<=", v) for v, st in upper]
+                    rec["probs"].append("%s hands the parsed value `%s` to %s, whose constructor asserts `%s %s %s` (XASSERT -> abort), but the rejections in front of the call "
+                                        "only establish %s: the boundary value passes the parser and aborts the process instead of raising Xml::*Error" % (
+                                            f.name, X, short(con["ccls"]), pl["n"], op, norm(pr), have or "nothing about it"))
+    for key, rec in sorted(seen.items()):
+        ck.ob(rule, key, not rec["probs"], "; ".join(sorted(set(rec["probs"]))[:2]) or "implied by the dominating rejections (%d instantiation(s))" % rec["n"], rec["fn"].file, rec["line"])
+
+
+# -------------------------------------------------------------------------------------------------
 # E12.carrier-transfer: copy / move operations of the classes that carry parsed data to the writer
 # -------------------------------------------------------------------------------------------------
 
@@ -5932,7 +6232,15 @@ class SymExec:
                     except Unknown:
                         captured = None
             elif k in ("For", "While", "Do", "ForRange"):
-                raise Unknown("loop at line %s" % n.get("l"))
+                if not getattr(self, "skip_loops", False):
+                    raise Unknown("loop at line %s" % n.get("l"))
+                # loops are not executed: whatever they assign is unknown afterwards, emissions inside them are not captured
+                for x in walk(n):
+                    if x.get("k") in ("Assign", "Un") and x.get("op") in ("=", "+=", "-=", "*=", "/=", "++", "--"):
+                        r = root_var(x.get("lhs") or x.get("e"))
+                        if r:
+                            env.pop(r, None)
+                            env.pop("@" + r, None)
         self.paths.append((env, conds, captured))
 
 
